@@ -130,7 +130,7 @@ class Gen:
         ns = list(range(1, 31)) if thorough else [1, 2, 3, 9, 10, 11, 30]
         k = 0
         for form in u.all_forms(sizes=sizes):
-            for pos in ('name', 'id', 'class', 'attr', 'attrq', 'attrx', 'attrname', 'text', 'child'):
+            for pos in ('name', 'id', 'class', 'attr', 'attrq', 'attrx', 'attrname', 'text', 'textnest', 'attrxnest', 'child'):
                 for n in (ns if thorough else ns[(k % 3)::3] + [ns[k % len(ns)]]):
                     k += 1
                     f = u.Num(form.size, form.reverse, form.base, form.at)
@@ -151,6 +151,10 @@ class Gen:
                         e.attrs = [(['t', f], ['v'], "'")]
                     elif pos == 'text':
                         e.text = ['T ', f]
+                    elif pos == 'textnest':      # counter inside balanced inner braces of a text (repaired 86fc68a)
+                        e.text = [['a{', f, '}b'], ['{', f, '}'], ['{{', f, '}x}'], ['{a}', f, ' {', f, '}']][k % 4]
+                    elif pos == 'attrxnest':     # ... and of an expression value
+                        e.attrs = [(['t'], [['x{', f, '}'], ['{', f, '}y'], ['f({', f, '})']][k % 3], '{')]
                     else:   # inherited by a descendant without its own repeater
                         e.kids = [u.El(name=['p'], kids=[u.El(name=['q'], classes=[['c', f]])])]
                     self.ctx.cover('form:%s' % form_kind(form))
